@@ -43,18 +43,19 @@ func (c caseSpec) String() string {
 }
 
 type session struct {
-	nesting    map[gnet.EventLoop]int
-	cs         caseSpec
-	e          *fx.Engine
-	mu         sync.Mutex
-	conns      []*cstate
-	trigger    int32 // 1: the next eligible callback returns Shutdown
-	fired      int32
-	returned   int32 // Run / Client.Stop has returned
-	late       []string
-	inTick     int32
-	gate       chan struct{}
-	wakeTarget *cstate
+	nesting            map[gnet.EventLoop]int
+	cs                 caseSpec
+	e                  *fx.Engine
+	mu                 sync.Mutex
+	conns              []*cstate
+	trigger            int32 // 1: the next eligible callback returns Shutdown
+	fired              int32
+	returned           int32 // Run / Client.Stop has returned
+	late               []string
+	inTick             int32
+	gate               chan struct{}
+	werrParked, werrGo chan struct{} // source "OnClose+writeerr": the target parks in OnTraffic, then writes to a peer that has reset
+	wakeTarget         *cstate
 }
 
 type cstate struct {
@@ -118,6 +119,19 @@ func (c *cstate) OnOpen(gc gnet.Conn) ([]byte, gnet.Action) {
 func (c *cstate) OnTraffic(gc gnet.Conn) gnet.Action {
 	c.s.lateCheck(fmt.Sprintf("OnTraffic conn%d", c.id))
 	_, _ = gc.Discard(-1)
+	if c.role == "werr" && c.s.werrGo != nil {
+		c.role = "idle"
+		c.s.werrParked <- struct{}{}
+		<-c.s.werrGo
+		// the peer has reset the connection meanwhile: a write fails, and the connection is closed from inside it
+		junk := make([]byte, 64<<10)
+		for i := 0; i < 200; i++ {
+			if _, err := gc.Write(junk); err != nil {
+				break
+			}
+		}
+		return gnet.None
+	}
 	if g := c.s.gate; g != nil && c.role == "gate" {
 		<-g // keeps the loop busy while a backlog is queued
 		c.role = "idle"
@@ -166,7 +180,7 @@ func (c *cstate) OnClose(gc gnet.Conn, err error) gnet.Action {
 			}
 		}
 	}
-	if c.s.shouldFire("OnClose") {
+	if c.s.shouldFire("OnClose") || c.s.shouldFire("OnClose+writeerr") {
 		return gnet.Shutdown
 	}
 	if c.s.cs.CloseSaysShutdown && atomic.LoadInt32(&c.s.trigger) >= 1 {
@@ -413,6 +427,31 @@ func run(cs caseSpec) (fails, stalls []string, infra string, nt bool) {
 			peerMu.Unlock()
 		}
 		close(stopRet)
+	case "OnClose+writeerr":
+		if target != nil && cs.Backlog == 0 {
+			s.werrParked, s.werrGo = make(chan struct{}, 1), make(chan struct{})
+			target.role = "werr"
+			peerMu.Lock()
+			_, _ = peers[0].Write([]byte{1})
+			peerMu.Unlock()
+			select {
+			case <-s.werrParked:
+				peerMu.Lock()
+				if tc, ok := peers[0].(*net.TCPConn); ok {
+					_ = tc.SetLinger(0) // reset instead of an orderly close
+				}
+				peers[0].Close()
+				peerMu.Unlock()
+				time.Sleep(time.Millisecond)
+			case <-time.After(2 * time.Second):
+			}
+			close(s.werrGo)
+		} else if target != nil {
+			peerMu.Lock()
+			peers[0].Close()
+			peerMu.Unlock()
+		}
+		close(stopRet)
 	case "OnTick":
 		close(stopRet)
 	}
@@ -532,7 +571,7 @@ func drawCase(t *rapid.T) caseSpec {
 	if !cs.Cfg.Client && rapid.IntRange(0, 3).Draw(t, "rotate") == 0 {
 		cs.Cfg.Listeners = rapid.IntRange(2, 3).Draw(t, "listeners")
 	}
-	srcs := []string{"engine.Stop", "engine.Stop", "pkg.Stop", "OnOpen", "OnTraffic", "OnTraffic+close", "OnClose", "OnTick", "Wake", "OnBoot"}
+	srcs := []string{"engine.Stop", "engine.Stop", "pkg.Stop", "OnOpen", "OnTraffic", "OnTraffic+close", "OnClose", "OnClose+writeerr", "OnTick", "Wake", "OnBoot"}
 	if cs.Cfg.Client {
 		srcs = []string{"client.Stop", "client.Stop", "OnTraffic", "OnTraffic+close", "OnClose", "Wake", "OnTick"}
 	}
@@ -553,7 +592,7 @@ func drawCase(t *rapid.T) caseSpec {
 	cs.Pending = rapid.IntRange(0, 2).Draw(t, "pending")
 	cs.CloseSaysShutdown = rapid.IntRange(0, 3).Draw(t, "closeSaysShutdown") == 0
 	cs.ClosePartner = rapid.SampledFrom([]string{"", "", "", "", "next", "next", "last"}).Draw(t, "closePartner")
-	if cs.Source == "OnTraffic" || cs.Source == "OnTraffic+close" || cs.Source == "OnClose" || cs.Source == "Wake" {
+	if cs.Source == "OnTraffic" || cs.Source == "OnTraffic+close" || cs.Source == "OnClose" || cs.Source == "OnClose+writeerr" || cs.Source == "Wake" {
 		if cs.Idle == 0 {
 			cs.Idle = 1
 		}
